@@ -98,6 +98,7 @@ fn fam_empty_rows(r: &mut Rng) -> LinearModel {
 
 pub fn family(r: &mut Rng, i: usize) -> (LinearModel, &'static str) {
     if i % 16 == 15 { return (crate::props::c04::variable_free(r), "variable-free"); }
+    if i % 5 == 4 { return (gen_lp::near_tied(r), "near-tied-large-coefficients"); }
     match i % 8 {
         0 => (fam_free_face(r), "free-face"),
         1 => (fam_both_infeasible(r), "primal-dual-infeasible"),
